@@ -234,10 +234,16 @@ func observe(apps *hx.Apps, service, path string) obs {
 		o    obs
 	)
 
-	if service == "decision" {
+	switch service {
+	case "decision":
 		resp = apps.DoDecision(r)
 		o.rule, o.caps = resp.Header.Get("X-Rule"), resp.Header.Get("X-Cap")
-	} else {
+	case "envoy":
+		// with a query, which Envoy hands over as part of the request target
+		r.RawQuery = "x=1"
+		resp = apps.DoEnvoy(r)
+		o.rule, o.caps = resp.OkHeaders["X-Rule"], resp.OkHeaders["X-Cap"]
+	default:
 		resp = apps.DoProxy(r)
 		o.ups = len(resp.Upstream)
 
@@ -380,7 +386,7 @@ func Check() *engine.Check {
 		Rule: "8 rule-set shapes (literal, single wildcard, single wildcard with path_params, free wildcard, single wildcard whose literal prefix the proxy strips - each next to a /** catch-all -, rules with different settings on one expression, two rules with the same path_params under different settings and " +
 			"default rule only) x 3 allow_encoded_slashes settings x 3 canonical paths x (every spelling with any subset of the designated " +
 			"unreserved octets - 6 quick / 9 thorough, always including the first and last octet of the path and of every segment - percent-encoded in upper or lower hex = 3^n per path, and %2F / %2f inserted at every position of the last segment, also together with the first octet of the path percent-encoded; the encoded-slash cases also after an update that changed nothing but the setting) " +
-			"x decision and proxy service, sent as raw request bytes through http.ReadRequest and the real handler chains with real mechanisms; " +
+			"x decision and proxy service, sent as raw request bytes through http.ReadRequest and the real handler chains with real mechanisms, and the Envoy ext_authz service (the request target with a query in the path attribute, as Envoy sends it); " +
 			"oracle: metamorphic equality with the canonical spelling (rule, captures, decision) and the encoded-slash table of the statement. " +
 			"Non-trivial = spelling differs from the canonical one or contains an encoded slash.",
 		Assumptions: []string{
@@ -446,7 +452,7 @@ func run(c *engine.Ctx) {
 				}
 
 				err := withFixture(name, setting, base, "", func(apps *hx.Apps) {
-					for _, svc := range []string{"decision", "proxy"} {
+					for _, svc := range []string{"decision", "proxy", "envoy"} {
 						npos := 6
 						if !c.Quick() {
 							npos = 9
@@ -472,7 +478,7 @@ func run(c *engine.Ctx) {
 					}
 
 					err = withFixture(name, setting, base, prior, func(apps *hx.Apps) {
-						for _, svc := range []string{"decision", "proxy"} {
+						for _, svc := range []string{"decision", "proxy", "envoy"} {
 							for _, p := range slashVariants(base) {
 								judge(c, apps, &Case{name, setting, base, p, "slash", svc, prior})
 							}
